@@ -355,6 +355,7 @@ func runCase(r *h.Run, c caseT) {
 			} else if bk.BufBytes == 0 && bk.FileBytes == 0 {
 				complete = true // nothing queued: missing bytes are a C01 matter, CheckStream reports them
 			} else {
+				fmt.Printf("=== case %d: predicate does not hold: %s\nnbio error log: %q\n%s\n", c.Index, stallInfo, outb.Log.Take(), h.Stacks())
 				r.Inconclusive(fmt.Sprintf("case %d: no progress but the stuck-state predicate does not hold: %s", c.Index, stallInfo))
 				return
 			}
